@@ -2,12 +2,11 @@ from __future__ import annotations
 
 import logging
 import numbers
-from contextlib import suppress
 
 import claripy
 from claripy import backends
 from claripy.ast import Base
-from claripy.errors import BackendError, ClaripyFrontendError
+from claripy.errors import ClaripyFrontendError, UnsatError
 
 from .constrained_frontend import ConstrainedFrontend
 
@@ -167,9 +166,23 @@ class ReplacementFrontend(ConstrainedFrontend):
     def _replace_list(self, lst):
         return tuple(self._replacement(c) for c in lst)
 
+    def _replaced_away(self, e, er):
+        return isinstance(e, Base) and e.symbolic and isinstance(er, Base) and not er.symbolic
+
+    def _check_replaced(self, es, ers, ecr, exact):
+        """
+        A replacement turned a symbolic expression into a constant, which the actual frontend evaluates without looking
+        at its constraints. The constant is only a solution if there are any.
+        """
+        if any(self._replaced_away(e, er) for e, er in zip(es, ers)) and not self._actual_frontend.satisfiable(
+            extra_constraints=ecr, exact=exact
+        ):
+            raise UnsatError("unsatisfiable constraints behind a replaced expression")
+
     def eval(self, e, n, extra_constraints=(), exact=None):
         er = self._replacement(e)
         ecr = self._replace_list(extra_constraints)
+        self._check_replaced((e,), (er,), ecr, exact)
         r = self._actual_frontend.eval(er, n, extra_constraints=ecr, exact=exact)
         if self._unsafe_replacement:
             self._add_solve_result(e, er, r[0])
@@ -178,6 +191,7 @@ class ReplacementFrontend(ConstrainedFrontend):
     def batch_eval(self, exprs, n, extra_constraints=(), exact=None):
         er = self._replace_list(exprs)
         ecr = self._replace_list(extra_constraints)
+        self._check_replaced(exprs, er, ecr, exact)
         r = self._actual_frontend.batch_eval(er, n, extra_constraints=ecr, exact=exact)
         if self._unsafe_replacement:
             for i, original in enumerate(exprs):
@@ -187,6 +201,7 @@ class ReplacementFrontend(ConstrainedFrontend):
     def max(self, e, extra_constraints=(), signed=False, exact=None):
         er = self._replacement(e)
         ecr = self._replace_list(extra_constraints)
+        self._check_replaced((e,), (er,), ecr, exact)
         r = self._actual_frontend.max(er, extra_constraints=ecr, signed=signed, exact=exact)
         if self._unsafe_replacement:
             self._add_solve_result(e, er, r)
@@ -195,6 +210,7 @@ class ReplacementFrontend(ConstrainedFrontend):
     def min(self, e, extra_constraints=(), signed=False, exact=None):
         er = self._replacement(e)
         ecr = self._replace_list(extra_constraints)
+        self._check_replaced((e,), (er,), ecr, exact)
         r = self._actual_frontend.min(er, extra_constraints=ecr, signed=signed, exact=exact)
         if self._unsafe_replacement:
             self._add_solve_result(e, er, r)
@@ -204,6 +220,8 @@ class ReplacementFrontend(ConstrainedFrontend):
         er = self._replacement(e)
         vr = self._replacement(v)
         ecr = self._replace_list(extra_constraints)
+        if self._replaced_away(e, er) and not self._actual_frontend.satisfiable(extra_constraints=ecr, exact=exact):
+            return False
         r = self._actual_frontend.solution(er, vr, extra_constraints=ecr, exact=exact)
         if self._unsafe_replacement and r and (not isinstance(vr, Base) or not vr.symbolic):
             self._add_solve_result(e, er, vr)
@@ -223,15 +241,8 @@ class ReplacementFrontend(ConstrainedFrontend):
         ecr = self._replace_list(extra_constraints)
         return self._actual_frontend.satisfiable(extra_constraints=ecr, exact=exact)
 
-    def _concrete_value(self, e):
-        c = super()._concrete_value(e)
-        if c is not None:
-            return c
-
-        cr = self._replacement(e)
-        with suppress(BackendError):
-            return backends.concrete.eval(cr, 1)[0]
-        return None
+    # NOTE: _concrete_value() is not overridden: an expression that only the replacements make concrete has that value
+    # in every solution, but there may be none. The query methods below replace it and check that.
 
     def _concrete_constraint(self, e):
         c = super()._concrete_value(e)
